@@ -22,8 +22,16 @@ type FakeServer struct {
 
 	mu     sync.Mutex
 	dials  int
+	log    []string
 	behave func(attempt int, req []byte) Action
 	wg     sync.WaitGroup
+}
+
+// AcceptLog returns one line per accepted connection (time, remote address).
+func (f *FakeServer) AcceptLog() []string {
+	f.mu.Lock()
+	defer f.mu.Unlock()
+	return append([]string(nil), f.log...)
 }
 
 // Action describes the reaction to one connection.
@@ -68,6 +76,7 @@ func (f *FakeServer) loop() {
 		f.mu.Lock()
 		n := f.dials
 		f.dials++
+		f.log = append(f.log, time.Now().Format("15:04:05.000000")+" "+conn.RemoteAddr().String())
 		b := f.behave
 		f.mu.Unlock()
 		f.wg.Add(1)
@@ -131,14 +140,13 @@ func SignReply(r ref.SyncReply, signer ref.Key) ref.SyncReply {
 	return r
 }
 
-// DeadPort returns a TCP port on which nothing listens (dial is refused).
-func DeadPort() uint16 {
-	ln, err := net.Listen("tcp", "127.0.0.1:0")
-	must(err)
-	p := uint16(ln.Addr().(*net.TCPAddr).Port)
-	ln.Close()
-	return p
-}
+// DeadPort returns a TCP port on which nothing listens (dial is refused). It
+// must be a port that no process can be handed by the kernel later: an
+// ephemeral port that was free a moment ago can be bound by a fake server of
+// ANOTHER test process running in parallel, and a "dead" entry would then reach
+// that process (observed: a foreign connection counted as a second dial).
+// Port 1 lies outside the ephemeral range and nothing listens on it.
+func DeadPort() uint16 { return 1 }
 
 // TCPRelay sits in front of a real server's sync port. Each accepted
 // connection consumes one prepared outcome: "pass" forwards request and reply
